@@ -18,3 +18,10 @@ pub struct Senders {
     pub events: EventStreamer,
     pub autoalloc: AutoAllocService,
 }
+
+/// Verification hooks: crate-internal access to items of the private modules (used by `crate::verif`).
+#[cfg(it4innovations_hyperqueue_verif)]
+pub(crate) mod verif_access {
+    pub(crate) use super::restore::StateRestorer;
+    pub(crate) use super::tako_events::UpstreamEventProcessor;
+}
